@@ -32,7 +32,10 @@ RULE = ("(a) for each of 14 binary 8-bit operations (ADD/SUB/ADC/SBC/AND/OR/XOR/
         "(prefix, opcode) with fresh operand bytes (1/4) or by any valid encoding (1/4) -- the decoder looks one "
         "instruction ahead; (b'') encoding grids: every MVL/MVLD (prefix, opcode, operand shape) with I in 2..24 and an "
         "internal block crossing (FF)->(00), every (prefix, opcode, mode byte) with a [r3++]/[--r3] operand with r3 in "
-        "FFFFD..FFFFF resp. 1..3 (access just fits at the top/bottom of the 1 MiB space). Non-trivial = the reference run produces a carry/borrow, a zero result, a pointer "
+        "FFFFD..FFFFF resp. 1..3 (access just fits at the top/bottom of the 1 MiB space), every MVL/MVLD/WAIT (prefix, opcode, "
+        "operand shape) pair (seed-rotated walk) with a large iteration count I in FFh..FFFFh (1/3 boundary counts around "
+        "2^8, 2^12..2^15, BFFF/C000, FFFE/FFFF; 2/3 log-uniform); in 1/2 of the cases of every part the lifter's scratch "
+        "registers TEMP0..TEMP13 hold generated junk at instruction entry. Non-trivial = the reference run produces a carry/borrow, a zero result, a pointer "
         "pre/post update, a stack transfer, a taken/not-taken conditional branch or a multi-byte chain/block with I>=2; "
         "distinct = (operation, a, b, carry) for (a), (prefix, opcode, kinds, state hash) for (b).")
 
@@ -49,9 +52,11 @@ ASSUMPTIONS = [
     "POPU IL / ADD IL,.. / INC IL: IH not asserted (README IH<-0 note exists only on MV rows)",
     "MVP (k),lmn: third byte compared on its low nibble (text shows 20 bits, README says byte l)",
     "RESET: only LCC bit 7, UCR, USR bits, SCR asserted; IMR/ISR/SSR writes tolerated, PC and reads not asserted (vector address is C06/C17's subject); IR unmodelled",
-    "WAIT: I = 0, nothing else (prefixed WAIT generated with small I because it runs the IL loop)",
+    "WAIT: I = 0, nothing else (a prefixed WAIT runs the IL loop: small I in the random exploration, the full 16-bit range in the large-count grid)",
     "skipped (README silent): operands running off internal memory / the 1 MiB space, pointer used as data register with ++/--, self-modifying BP/PX/PY in multi-step forms, partially overlapping EX operands, stack pointer wrap, jumps straddling/leaving the 64 KiB page, I = 0 for counted forms",
     "when the IL touches other locations than the text denotes (C03 failure) values are not compared; the case is reported once as operand-location:*",
+    "TEMP0..TEMP13 (lifter scratch registers, part of Registers.BASE, never reset between instructions, saved in snapshots) hold generated values at instruction entry in half of the cases of every part: the documented result/flags are a function of the architectural inputs only (any instruction history leaves such values behind); verdicts that vanish with the TEMPs cleared are tagged",
+    "iteration counts up to FFFFh are inside 'all iteration counts of at least one' (I is a 16-bit counter); large-count MVL/MVLD/WAIT cases for which the reference is silent (block leaves the 1 MiB space / covers the code bytes / rewrites BP,PX,PY while addressing through them) are re-drawn",
 ]
 
 
@@ -70,6 +75,9 @@ def run(ctx: Ctx) -> Report:
     fs = 8
     tasks += [("explore", (PROPERTY, i, fs, ctx.seed, ctx.pick(6, 24), 24, SALT, "blockwrap")) for i in range(fs)]
     tasks += [("explore", (PROPERTY, i, fs, ctx.seed, ctx.pick(1, 4), 24, SALT, "ptr-edge")) for i in range(fs)]
+    # large iteration counts (c03_gen.big_count): few, slow cases -> many small tasks, scheduled first
+    bs = ctx.pick(16, 64)
+    tasks = [("explore", (PROPERTY, i, bs, ctx.seed, ctx.pick(5, 6), 24, SALT, "bigcount")) for i in range(bs)] + tasks
     for i in range(max(len(tasks_a), len(tasks_b))):
         if i < len(tasks_a):
             tasks.append(tasks_a[i])
